@@ -382,9 +382,14 @@ class Worker:
         for key, task in list(self._tasks.items()):
             if task.is_descendant_of(addr):
                 task.cancel()
-                for mailbox_id in task.owned_mailboxes:
-                    self._mailboxes.pop(mailbox_id, None)
+                # Forget the task first: if it is running right now, the
+                # main thread sees that as soon as the task's step is over
+                # and drops whatever mailboxes the task created meanwhile
+                # (see _drop_mailboxes_if_cancelled); the ones it owns by
+                # now are dropped here.
                 self._tasks.pop(key, None)
+                for mailbox_id in list(task.owned_mailboxes):
+                    self._mailboxes.pop(mailbox_id, None)
 
         # Remove all tasks that are children of `addr` from delayed tasks.
         # The main thread pops from this list concurrently, so remove the
@@ -466,6 +471,23 @@ class Worker:
 
             return task
 
+    def _drop_mailboxes_if_cancelled(self, task: RuntimeTask) -> bool:
+        """
+        Clean up after a task that was cancelled while it was running.
+
+        A cancel handled by the incoming thread cannot stop a running task:
+        it forgets the task and drops the mailboxes the task owned at that
+        moment, but the task's code runs on to its next await and may create
+        more mailboxes, which nobody would ever remove. Returns True if
+        `task` is no longer registered (its mailboxes are then dropped).
+        """
+        if task.return_address in self._tasks:
+            return False
+
+        for mailbox_id in list(task.owned_mailboxes):
+            self._mailboxes.pop(mailbox_id, None)
+        return True
+
     def _try_step_next_ready_task(self) -> None:
         """Select a task to run, and advance it one step."""
         task = self._get_next_ready_task()
@@ -479,6 +501,9 @@ class Worker:
             # Perform a step of the task and get the future it awaits on
             future = task.step(self._get_desired_result(task))
 
+            if self._drop_mailboxes_if_cancelled(task):
+                return
+
             self._process_await(task, future)
 
         except StopIteration as e:
@@ -488,6 +513,7 @@ class Worker:
             # Whatever a cancelled task fails with is not reported
             for addr in self._cancelled_task_ids:
                 if task.is_descendant_of(addr):
+                    self._drop_mailboxes_if_cancelled(task)
                     return
 
             assert self._active_task is not None  # for type checker
@@ -537,7 +563,7 @@ class Worker:
         assert task is self._active_task
         packaged_result = RuntimeResult(task.return_address, result, self._id)
 
-        if task.return_address not in self._tasks:
+        if self._drop_mailboxes_if_cancelled(task):
             # print(f'Task was cancelled: {task.return_address},
             # {task.fnargs[0].__name__}')
             return
